@@ -95,6 +95,7 @@ func runC17(c *core.Ctx) {
 	c.Rule("R17.5", "expiry follows the reference map (memcached): now + TTL only for TTLs of at most 30 days, above that the TTL is an absolute time (shared with C09)", 1)
 	runR99(c, "R17.5")
 	runR176(c)
+	runR177(c)
 
 	const rel = "handlers/inmem"
 	impl, ok := handlerImpl(c, rel)
